@@ -104,6 +104,20 @@ def solve_obligation(ob, timeout_ms=20000, want_smt2=False, hints=()):
     cv_result = None
     smt2_bg = None
     if r == z3.unknown:
+        # non-linear arithmetic makes z3 give up on queries whose proof never looks inside the products: try once with every
+        # product of two symbolic factors abstracted to an uninterpreted function (sound for 'unsat')
+        try:
+            ab, n_ab = abstract_nonlinear(list(ob.hyps) + [z3.Not(ob.goal)])
+            if n_ab:
+                sa = z3.Solver()
+                sa.set('timeout', min(timeout_ms, 6000))
+                for h in ab:
+                    sa.add(h)
+                if sa.check() == z3.unsat:
+                    return 'unsat', zver + '(products of symbolic factors abstracted to uninterpreted functions)', time.time() - t0, None, None, None
+        except Exception:
+            pass
+    if r == z3.unknown:
         # hard: cvc5 and a second z3 (CLI) run as separate processes on the dumped query; no threads in this process
         # (z3's Python objects are not safe to finalise while another thread is inside the solver)
         smt2_bg = _fresh_smt2(ob)
@@ -163,6 +177,15 @@ def solve_obligation(ob, timeout_ms=20000, want_smt2=False, hints=()):
     dt += secs
     if st == 'unsat':
         return 'unsat', 'cvc5-1.0.3', dt, None, None, smt2
+    # hypotheses that the proof does not need can keep the quantifier engine busy for ever: retry without all hypotheses that
+    # mention one uninterpreted function the goal does not mention (one query per such function, run in parallel as z3
+    # processes).  Proving from fewer hypotheses is sound.
+    try:
+        fam = family_drop(ob, min(timeout_ms, 4000))
+    except Exception:
+        fam = None
+    if fam is not None:
+        return 'unsat', zver + '(cli; without the hypotheses mentioning %s)' % fam, time.time() - t0, None, None, smt2
     for cfg in ({'smt.mbqi': False, 'smt.random_seed': 7}, {'smt.arith.solver': 2, 'smt.random_seed': 3}, {}):
         s2 = z3.Solver()
         s2.set('timeout', timeout_ms)
@@ -222,6 +245,148 @@ def solve_obligation(ob, timeout_ms=20000, want_smt2=False, hints=()):
     except Exception:
         pass
     return 'unknown', 'z3+cvc5', dt, None, '%s / cvc5:%s' % (reason, st), smt2
+
+
+def _fn_symbols(e, acc, seen):
+    stack = [e]
+    while stack:
+        x = stack.pop()
+        i = x.get_id()
+        if i in seen:
+            continue
+        seen.add(i)
+        if z3.is_quantifier(x):
+            stack.append(x.body())
+            continue
+        if z3.is_app(x):
+            if x.num_args() > 0 and x.decl().kind() == z3.Z3_OP_UNINTERPRETED:
+                acc.add(x.decl().name())
+            stack.extend(x.children())
+
+
+def family_drop(ob, timeout_ms, max_par=12):
+    gsyms = set()
+    _fn_symbols(ob.goal, gsyms, set())
+    per_h = []
+    allsyms = {}
+    for h in ob.hyps:
+        a = set()
+        _fn_symbols(h, a, set())
+        per_h.append(a)
+        for n_ in a:
+            allsyms[n_] = allsyms.get(n_, 0) + 1
+    cands = sorted((n_ for n_ in allsyms if n_ not in gsyms), key=lambda n_: -allsyms[n_])[:36]
+    if not cands:
+        return None
+    queue = list(cands)
+    running = []
+    found = None
+    try:
+        while (queue or running) and found is None:
+            while queue and len(running) < max_par:
+                name = queue.pop(0)
+                sv = z3.Solver()
+                for h, a in zip(ob.hyps, per_h):
+                    if name not in a:
+                        sv.add(h)
+                sv.add(z3.Not(ob.goal))
+                pr = start_z3cli(sv.to_smt2(), timeout_ms)
+                if pr is not None:
+                    running.append((name, pr))
+            still = []
+            for name, pr in running:
+                if pr.poll() is None:
+                    still.append((name, pr))
+                    continue
+                res = wait_cvc5(pr, 500)[0]
+                if res == 'unsat' and found is None:
+                    found = name
+            running = still
+            if found is None:
+                time.sleep(0.03)
+    finally:
+        for _n, pr in running:
+            stop_cvc5(pr)
+    return found
+
+
+_NL = {}
+
+
+def _nl_fn(kind, sort):
+    key = (kind, sort.name())
+    if key not in _NL:
+        _NL[key] = z3.Function('u_nl%s_%s' % (kind, sort.name().lower()), sort, sort, sort)
+    return _NL[key]
+
+
+def abstract_nonlinear(exprs):
+    """every product of two non-numeral factors (and every quotient / div / mod by a non-numeral) becomes an application of an
+    uninterpreted function.  The result has at least the models of the input, so 'unsat' carries over; 'sat' means nothing.
+    Returns (new expressions, number of abstracted operators)."""
+    cache = {}
+    keep = []
+    count = [0]
+    fresh = [0]
+
+    def is_num(e):
+        if z3.is_int_value(e) or z3.is_rational_value(e) or z3.is_algebraic_value(e):
+            return True
+        if z3.is_app(e) and e.decl().kind() == z3.Z3_OP_UMINUS:
+            return is_num(e.arg(0))
+        if z3.is_app(e) and e.decl().kind() == z3.Z3_OP_TO_REAL:
+            return is_num(e.arg(0))
+        return False
+
+    def go(e):
+        i = e.get_id()
+        if i in cache:
+            return cache[i]
+        keep.append(e)
+        if z3.is_quantifier(e):
+            nv = e.num_vars()
+            vs = []
+            for j in range(nv):
+                fresh[0] += 1
+                vs.append(z3.Const('nlbv!%d!%s' % (fresh[0], e.var_name(j)), e.var_sort(j)))
+            body = z3.substitute_vars(go(e.body()), *reversed(vs))
+            pats = []
+            for j in range(e.num_patterns()):
+                pt = e.pattern(j)
+                terms = [z3.substitute_vars(go(pt.arg(a_)), *reversed(vs)) for a_ in range(pt.num_args())]
+                pats.append(z3.MultiPattern(*terms) if len(terms) > 1 else terms[0])
+            if e.is_forall():
+                r = z3.ForAll(vs, body, patterns=pats) if pats else z3.ForAll(vs, body)
+            else:
+                r = z3.Exists(vs, body, patterns=pats) if pats else z3.Exists(vs, body)
+        elif z3.is_app(e) and e.num_args() > 0:
+            ch = [go(c_) for c_ in e.children()]
+            k = e.decl().kind()
+            if k == z3.Z3_OP_MUL:
+                nums = [c_ for c_ in ch if is_num(c_)]
+                rest = [c_ for c_ in ch if not is_num(c_)]
+                if len(rest) >= 2:
+                    count[0] += 1
+                    f = _nl_fn('mul', e.sort())
+                    acc = rest[0]
+                    for c_ in rest[1:]:
+                        acc = f(acc, c_)
+                    for c_ in nums:
+                        acc = c_ * acc
+                    r = acc
+                else:
+                    r = e.decl()(*ch)
+            elif k in (z3.Z3_OP_DIV, z3.Z3_OP_IDIV, z3.Z3_OP_MOD, z3.Z3_OP_REM) and not is_num(ch[1]):
+                count[0] += 1
+                r = _nl_fn({z3.Z3_OP_DIV: 'div', z3.Z3_OP_IDIV: 'idiv', z3.Z3_OP_MOD: 'mod', z3.Z3_OP_REM: 'rem'}[k], e.sort())(ch[0], ch[1])
+            else:
+                r = e.decl()(*ch)
+        else:
+            r = e
+        cache[i] = r
+        return r
+    out = [go(e) for e in exprs]
+    return out, count[0]
 
 
 def _subterms(e, acc, seen):
@@ -465,6 +630,20 @@ def verify(contract, timeout_ms=20000, case_filter=None, mutate=None, verbose=Fa
                 rep.results.append(r)
                 if verbose:
                     print('   %-60s %-8s %s %.3fs' % (ob.name, st, be, secs))
+            # vacuity guard: the hypotheses of a path (path condition, assumed library contracts with their quantified axioms,
+            # lemmas assumed after being proved) must not be contradictory, or every obligation on it would hold trivially
+            if p.outcome != 'abort' and p.obligations:
+                last = p.obligations[-1]
+                sv = z3.Solver()
+                sv.set('timeout', 700)
+                for h in last.hyps:
+                    sv.add(h)
+                t1 = time.time()
+                rv = sv.check()
+                rep.solver_s += time.time() - t1
+                rep.consistency_probes = getattr(rep, 'consistency_probes', 0) + 1
+                if rv == z3.unsat:
+                    rep.errors.append('%s: hypotheses of path %d are contradictory (every obligation on it is vacuous)' % (label, pi))
         rep.paths += n_live
         rep.cases.append({'label': label, 'paths': n_live, 'outcomes': outcomes})
         for want in contract.expected_outcomes(case):
@@ -607,7 +786,10 @@ def frame_obligations(I, contract, args, kwargs, out, call_stamp, writes):
     _mutables(out.value, outs, set())
     shared = []
     tokens_in = set(o.elem_token for o in ins if isinstance(o, SymSeq) and o.elem_token is not None)
+    echo_ids = set(id(kwargs[k_]) for k_ in getattr(contract, 'frame_echo', ()) if k_ in kwargs)   # arguments handed back as they are, by design
     for o in outs:
+        if id(o) in echo_ids:
+            continue
         if id(o) in in_ids:
             shared.append(o)
         elif isinstance(o, NDArr) and o.view_of is not None and id(o.root()) in in_ids and mode != 'may-view':
